@@ -389,6 +389,67 @@ Proof.
         rewrite Hn. reflexivity.
 Qed.
 
+(* ---------------------------------------------------------------- the subset query
+   (check_parameterised with matched_rule / force_check_exceptions) *)
+Definition is_some {A} (o : option A) : bool := match o with Some _ => true | None => false end.
+Lemma found_bool L Ls tags : incl Ls L -> id_inj L -> TG L ->
+  existsb (hit matches tags) Ls = is_some (found Ls tags).
+Proof.
+  intros Hi Hinj Htg. destruct (found Ls tags) eqn:E; cbn.
+  - apply (found_iff L Ls tags Hi Hinj Htg). congruence.
+  - apply (found_none L Ls tags Hi Hinj Htg). exact E.
+Qed.
+
+Theorem engine_eq_spec_p mr fc L T :
+  id_inj L -> TG L ->
+  blocker_check_p matches pr mr fc (tags_with_set h (blocker_new h L) T) = spec_verdict_p matches mr fc L T.
+Proof.
+  intros Hinj Htg.
+  unfold blocker_check_p, spec_verdict_p, tags_with_set, blocker_new.
+  cbn [b_importants b_tagged b_filters b_exceptions b_tags b_tagged_all].
+  fold (found (of_cat CImportant L) T).
+  fold (found (tagged_active T (of_cat CTagged L)) T).
+  fold (found (of_cat CNormal L) []).
+  fold (found (of_cat CException L) T).
+  change (act matches) with (hit matches).
+  pose proof (of_cat_incl CImportant L) as I1.
+  pose proof (of_cat_incl CNormal L) as I3.
+  pose proof (of_cat_incl CException L) as I4.
+  assert (I2 : incl (tagged_active T (of_cat CTagged L)) L).
+  { intros x Hx. apply (of_cat_incl CTagged L). eapply tagged_active_incl; eauto. }
+  rewrite (found_bool L _ T I1 Hinj Htg), (found_bool L _ T I2 Hinj Htg),
+          (found_bool L _ [] I3 Hinj Htg), (found_bool L _ T I4 Hinj Htg).
+  destruct (found (of_cat CImportant L) T) as [fi|] eqn:Ei.
+  - destruct (found_in _ _ _ Ei) as [Hin _].
+    rewrite (cat_important fi (of_cat_cat _ _ _ Hin)). cbn.
+    destruct (found (of_cat CException L) T); reflexivity.
+  - cbn [is_some orb negb andb]. destruct mr.
+    + cbn. destruct (found (of_cat CException L) T); cbn; reflexivity.
+    + cbn [negb andb orb]. unfold orelse.
+      destruct (found (tagged_active T (of_cat CTagged L)) T) as [ft|] eqn:Et.
+      * destruct (found_in _ _ _ Et) as [Hin _].
+        assert (Hni : is_important ft = false).
+        { apply cat_not_important. left. eapply of_cat_cat. eapply tagged_active_incl; eauto. }
+        rewrite Hni. cbn. destruct (found (of_cat CException L) T); reflexivity.
+      * cbn [is_some orb]. destruct (found (of_cat CNormal L) []) as [fn|] eqn:En.
+        -- destruct (found_in _ _ _ En) as [Hin _].
+           assert (Hni : is_important fn = false).
+           { apply cat_not_important. right. eapply of_cat_cat; eauto. }
+           rewrite Hni. cbn. destruct (found (of_cat CException L) T); reflexivity.
+        -- cbn. destruct fc; cbn; destruct (found (of_cat CException L) T); reflexivity.
+Qed.
+
+(* the ordinary query is the subset query with both flags off *)
+Lemma blocker_check_p_ff b : blocker_check_p matches pr false false b = blocker_check matches pr b.
+Proof. unfold blocker_check_p, blocker_check. cbn [orb]. destruct (check matches (b_importants b) pr (b_tags b)); cbn; [reflexivity|].
+  destruct (orelse _ _); cbn; rewrite ?orb_false_r; reflexivity. Qed.
+Lemma spec_verdict_p_ff L T : spec_verdict_p matches false false L T = spec_verdict matches L T.
+Proof.
+  unfold spec_verdict_p, spec_verdict. cbn [negb andb orb].
+  destruct (existsb (act matches T) (of_cat CImportant L)), (existsb (act matches T) (tagged_active T (of_cat CTagged L)) || existsb (act matches []) (of_cat CNormal L)),
+    (existsb (act matches T) (of_cat CException L)); reflexivity.
+Qed.
+
 (* the lists whose every hit is used: exactly the active matching rules of that category *)
 Theorem redirect_hits_exact L T f : id_inj L -> TG L ->
   (In f (redirect_hits matches pr (tags_with_set h (blocker_new h L) T))
